@@ -39,10 +39,12 @@ PROBLEMS = {
     "quad-rho": dict(model="quad", truth=[0.05, 0.7, 1.2], sources=[("y", "rho")]),
     "peak-fixed": dict(model="peak", truth=[3.3, 4.3, 1.3, 1.0], sources=[("y", "vec"), ("y", "cov")], fixed={"c": 1.0}),
     "peak-fix2": dict(model="peak", truth=[3.3, 4.3, 1.3, 1.0], sources=[("y", "vec")], fixed={"mu": 4.32, "c": 1.0}),  # two non-adjacent fixed parameters
+    "exp-y-nodet": dict(model="expo", truth=[1.6, 0.22], sources=[("y", "vec")], cost="nodet"),  # cost OBJECT built with add_determinant_cost=False
     "pow-xy": dict(model="powerlaw", truth=[1.1, 0.9], sources=[("y", "vec"), ("x", "vec")]),
     "logistic-lim": dict(model="logistic", truth=[8.0, 0.7, 4.2], sources=[("y", "vec")], limits={"L": (5.0, 12.0)}),
 }
-QUICK = ["exp-y", "exp-rho-cov", "exp-xy-relm", "expc-fixed", "expc-con", "sinus-lim", "quad-rho", "peak-fix2"]
+QUICK = ["exp-y", "exp-y-nodet", "exp-rho-cov", "exp-xy-relm", "expc-fixed", "expc-con", "sinus-lim", "quad-rho", "peak-fix2"]
+ASYM = ["expc-fixed", "peak-fix2", "quad-rho", "exp-y"]  # problems whose asymmetric (profile) uncertainties are compared as well
 N = 10
 
 
@@ -86,7 +88,12 @@ def build(name, v, backend, perm, order, unit):
     y = (base(val.x, *P["truth"]) + 0.3 * val.noise)[pi] * unit
     with warnings.catch_warnings():
         warnings.simplefilter("ignore")
-        f = kafe2.XYFit([x, y], model, minimizer=backend)
+        kw = {}
+        if P.get("cost") == "nodet":
+            from kafe2.fit.xy.cost import XYCostFunction_Chi2
+
+            kw["cost_function"] = XYCostFunction_Chi2(add_determinant_cost=False)
+        f = kafe2.XYFit([x, y], model, minimizer=backend, **kw)
         for axis, kind in P["sources"]:
             if kind == "vec":
                 e = (val.ey if axis == "y" else val.ex)[pi] * (unit if axis == "y" else 1.0)
@@ -109,18 +116,31 @@ def build(name, v, backend, perm, order, unit):
     return f, oname, scale
 
 
-def summary(f, oname, scale):
+def summary(f, oname, scale, asym=False):
     with warnings.catch_warnings():
         warnings.simplefilter("ignore")
         vals = dict(zip(oname, np.asarray(f.parameter_values, dtype=float)))
         errs = dict(zip(oname, np.asarray(f.parameter_errors, dtype=float)))
         C = np.asarray(f.parameter_cov_mat, dtype=float)
         cov = {(a, b): C[i, j] for i, a in enumerate(oname) for j, b in enumerate(oname)}
-        return dict(vals=vals, errs=errs, cov=cov, gof=float(f.goodness_of_fit), ndf=int(f.ndf), prob=float(f.chi2_probability), cost=float(f.cost_function_value))
+        out = dict(vals=vals, errs=errs, cov=cov, gof=float(f.goodness_of_fit), ndf=int(f.ndf), prob=float(f.chi2_probability), cost=float(f.cost_function_value))
+        if asym:
+            A = f.asymmetric_parameter_errors
+            out["asym"] = None if A is None else {p: [float(t) for t in A[i]] for i, p in enumerate(oname)}
+        return out
 
 
-def compare(base, tr, scale, unit, backend, n):
+def compare(base, tr, scale, unit, backend, n, det=True):
     out = []
+    if base.get("asym") is not None:
+        if tr.get("asym") is None:
+            out.append(("asymmetric_parameter_errors", "as for the untransformed problem", None, "missing"))
+        else:
+            for p, (dn, up) in base["asym"].items():
+                e0 = base["errs"][p]
+                td, tu = tr["asym"][p]
+                if e0 > 0 and (abs(td / scale[p] - dn) > 0.1 * e0 or abs(tu / scale[p] - up) > 0.1 * e0):
+                    out.append(("asym:" + p, [dn * scale[p], up * scale[p]], [td, tu], "wrong-value"))
     tolv = 0.03 if backend == "iminuit" else 0.05
     for p, v0 in base["vals"].items():
         s = scale[p]
@@ -143,20 +163,23 @@ def compare(base, tr, scale, unit, backend, n):
         out.append(("ndf", base["ndf"], tr["ndf"], "wrong-value"))
     if abs(tr["prob"] - base["prob"]) > 1e-3:
         out.append(("chi2_probability", base["prob"], tr["prob"], "wrong-value"))
-    exp_cost = base["cost"] + 2.0 * n * np.log(unit)
+    exp_cost = base["cost"] + (2.0 * n * np.log(unit) if det else 0.0)  # the ln det term is the only part that knows the unit of y
     if abs(tr["cost"] - exp_cost) > 1e-3 + 1e-6 * abs(exp_cost):
         out.append(("cost_function_value", exp_cost, tr["cost"], "wrong-value"))
     return out
 
 
-def build_multi(v, backend, perm, unit):
-    """MultiFit of two straight lines sharing the slope, with one shared (correlated) y uncertainty and one own source each"""
+def build_multi(v, backend, perm, unit, swap=False):
+    """MultiFit of two straight lines sharing the slope, with one shared (correlated) y uncertainty and one own source each;
+    the second member constrains its own parameter c; swap: the second member's model lists its parameters as (c, a)"""
     import kafe2
 
     val = V(v, N)
     pi = np.array(perm)
     src0 = "def m0(x, a=%r, b=%r):\n    return a * x + b\n" % (1.0 * unit, 0.5 * unit)
     src1 = "def m1(x, a=%r, c=%r):\n    return a * x + c\n" % (1.0 * unit, 2.0 * unit)
+    if swap:
+        src1 = "def m1(x, c=%r, a=%r):\n    return a * x + c\n" % (2.0 * unit, 1.0 * unit)
     ns = {}
     exec(src0, ns)
     exec(src1, ns)
@@ -169,6 +192,7 @@ def build_multi(v, backend, perm, unit):
         f1 = kafe2.XYFit([x1, y1], ns["m1"], minimizer=backend)
         f0.add_error("y", val.ey[pi] * unit)
         f1.add_error("y", val.ey2[pi] * unit)
+        f1.add_parameter_constraint("c", 2.3 * unit, 0.2 * unit)
         m = kafe2.MultiFit([f0, f1], minimizer=backend)
         m.add_error(0.15 * unit, fits="all", axis="y", correlation=val.rho)
         m.do_fit()
@@ -242,14 +266,14 @@ def run_case(name, backend, v, perm, order, unit):
 
     if name == "multi-shared":
         base = build_multi(v, backend, list(range(N)), 1.0)
-        return compare(base, build_multi(v, backend, perm, unit), {k: unit for k in "abc"}, unit, backend, 2 * N)
+        return compare(base, build_multi(v, backend, perm, unit, swap=list(order) == [1, 0]), {k: unit for k in "abc"}, unit, backend, 2 * N)
 
     npar = len(inspect.signature(ref.MODELS[PROBLEMS[name]["model"]]).parameters) - 1
     f0, on0, sc0 = build(name, v, backend, list(range(N)), tuple(range(npar)), 1.0)
-    b = summary(f0, on0, sc0)
+    b = summary(f0, on0, sc0, asym=name in ASYM)
     f1, on1, sc1 = build(name, v, backend, perm, order, unit)
-    t = summary(f1, on1, sc1)
-    return compare(b, t, sc1, unit, backend, N)
+    t = summary(f1, on1, sc1, asym=name in ASYM)
+    return compare(b, t, sc1, unit, backend, N, det=PROBLEMS[name].get("cost") != "nodet")
 
 
 def run_multi_job(spec):
@@ -259,25 +283,26 @@ def run_multi_job(spec):
     base = build_multi(v, backend, idn, 1.0)
     res.executions += 1
     scale = {"a": None, "b": None, "c": None}
-    trs = [(pn, p, 1.0) for pn, p in perms(tier)[1:4]] + [("id", idn, u) for u in (1e-3, 7.0, 1e3)] + [("shuffle", dict(perms(tier))["shuffle"], 7.0)]
-    for pn, perm, unit in trs:
-        hist = [dict(name=name, backend=backend, v=v, perm=list(perm), order=[0, 1, 2], unit=unit)]
+    trs = [(pn, p, 1.0, False) for pn, p in perms(tier)[1:4]] + [("id", idn, u, False) for u in (1e-3, 7.0, 1e3)] + [("shuffle", dict(perms(tier))["shuffle"], 7.0, False)]
+    trs += [("id", idn, 1.0, True), ("reverse", dict(perms(tier))["reverse"], 1e3, True)]  # parameter order of the second member's model
+    for pn, perm, unit, swap in trs:
+        hist = [dict(name=name, backend=backend, v=v, perm=list(perm), order=[1, 0] if swap else [0, 1, 2], unit=unit)]
         try:
-            t = build_multi(v, backend, perm, unit)
+            t = build_multi(v, backend, perm, unit, swap=swap)
             bad = compare(base, t, {k: unit for k in scale}, unit, backend, 2 * N)
         except Exception as e:  # noqa: BLE001
             bad = [("do_fit", "no exception", "%s: %s" % (type(e).__name__, str(e)[:120]), "exception:" + type(e).__name__)]
         res.executions += 1
         res.transitions += 10
         res.evaluations += 10
-        key = (name, backend, v, pn, unit)
+        key = (name, backend, v, pn, unit, swap)
         res.state(key)
         res.nontriv(key)
         res.observe((key, len(bad)))
-        res.outcomes[(name, backend, "perm" if pn != "id" else "unit", "ok" if not bad else "VIOLATION")] += 1
+        res.outcomes[(name, backend, "order" if swap else ("perm" if pn != "id" else "unit"), "ok" if not bad else "VIOLATION")] += 1
         res.facts["transform:multi"] += 1
         for o, e, a, m in bad:
-            res.violation("%s/%s|perm=%s|order=012|unit=%g" % (name, backend, pn, unit), hist, o, e, a, m)
+            res.violation("%s/%s|perm=%s|order=%s|unit=%g" % (name, backend, pn, "10" if swap else "012", unit), hist, o, e, a, m)
     res.sample(dict(problem=name, backend=backend, transformations=len(trs)))
     return res.as_dict()
 
@@ -293,7 +318,7 @@ def run_job(spec):
     npar = len(inspect.signature(ref.MODELS[PROBLEMS[name]["model"]]).parameters) - 1
     try:
         f0, on0, sc0 = build(name, v, backend, list(range(N)), tuple(range(npar)), 1.0)
-        base = summary(f0, on0, sc0)
+        base = summary(f0, on0, sc0, asym=name in ASYM)
     except Exception as e:  # noqa: BLE001
         res.violation("%s/%s|base" % (name, backend), [dict(name=name, backend=backend, v=v, perm=list(range(N)), order=list(range(npar)), unit=1.0)], "do_fit", "no exception", type(e).__name__ + str(e)[:100], "exception:" + type(e).__name__)
         return res.as_dict()
@@ -302,7 +327,7 @@ def run_job(spec):
         hist = [dict(name=name, backend=backend, v=v, perm=list(perm), order=list(order), unit=unit)]
         try:
             f1, on1, sc1 = build(name, v, backend, perm, order, unit)
-            bad = compare(base, summary(f1, on1, sc1), sc1, unit, backend, N)
+            bad = compare(base, summary(f1, on1, sc1, asym=name in ASYM), sc1, unit, backend, N, det=PROBLEMS[name].get("cost") != "nodet")
         except Exception as e:  # noqa: BLE001
             bad = [("do_fit", "no exception", "%s: %s" % (type(e).__name__, str(e)[:120]), "exception:" + type(e).__name__)]
         res.executions += 1
